@@ -1126,7 +1126,7 @@ func main() {
 		nestChild(*nestSpec)
 		return
 	}
-	h := &H{c: c, coqLeft: c.N(340, 6000)}
+	h := &H{c: c, coqLeft: c.N(340, 1500)}
 	theCtx = c
 	watchdog(60 * time.Second)
 	var rpn struct {
@@ -1191,7 +1191,7 @@ func main() {
 		j := c.Rng.Intn(i + 1)
 		perm[i], perm[j] = perm[j], perm[i]
 	}
-	coqEvery := nCorpus / c.N(110, 2000)
+	coqEvery := nCorpus / c.N(110, 500)
 	if coqEvery < 1 {
 		coqEvery = 1
 	}
